@@ -113,6 +113,8 @@ class SqliteStorage(AbstractStorage):
             from aw_datastore import check_for_migration  # fmt: skip
 
             check_for_migration(self)
+            # Make the migrated data durable, the migration is not re-run once this file exists
+            self.commit()
 
         self.last_commit = datetime.now()
         self.num_uncommitted_statements = 0
